@@ -50,6 +50,9 @@ package transport
 //@   safe
 //@   at `exec.CreateOperationContext(ctx, params)` requires params != nil
 //@   at `pool.Put(params)` requires params != nil && isZero(params)
+//@   at `statusForGraphQLResponse(opErr)` requires contentType == acceptApplicationGraphqlResponseJson && opErr != nil
+//@   at `statusFor(opErr)` requires contentType != acceptApplicationGraphqlResponseJson && opErr != nil
+//@   callsite WriteHeader: requires calls(DispatchOperation) == 0
 //@   callsite DispatchOperation: requires opErr == nil
 //@   ensures calls(DispatchOperation) >= 1 ==> calls(WriteHeader) == 0
 //@   ensures calls(DispatchOperation) <= 1
@@ -108,6 +111,10 @@ package transport
 //@ func (GET).Do [C09,C03,C10]
 //@   requires r != nil && w != nil && exec != nil && r.URL != nil
 //@   safe
+//@   at `statusForGraphQLResponse(gqlError)` requires contentType == acceptApplicationGraphqlResponseJson && gqlError != nil
+//@   at `statusFor(gqlError)` requires contentType != acceptApplicationGraphqlResponseJson && gqlError != nil
+//@   at `w.WriteHeader(http.StatusNotAcceptable)` requires op.Operation != ast.Query
+//@   callsite WriteHeader: requires calls(DispatchOperation) == 0
 //@   callsite DispatchOperation: requires gqlError == nil && op == opCtx.Operation && op.Operation == ast.Query
 //@   ensures calls(DispatchOperation) >= 1 ==> calls(WriteHeader) == 0
 //@   ensures calls(DispatchOperation) <= 1
@@ -295,3 +302,54 @@ package transport
 //@   gosafe
 //@   at `c.exec.CreateOperationContext(ctx, params)` requires params != nil
 //@   callsite DispatchOperation: requires err == nil
+
+// ---------------------------------------------------------------- C09: status codes and content negotiation
+//@ func statusFor [C09]
+//@   ghost k = 0
+//@   at `errcode.GetErrorKind(errs)` requires arg0 == errs
+//@   at `errcode.GetErrorKind(errs)` ghost k = callres0
+//@   ensures k == errcode.KindProtocol ==> res0 == 422
+//@   ensures k != errcode.KindProtocol ==> res0 == 200
+//@   nopanic
+//@   pure
+//@ func statusForGraphQLResponse [C09]
+//@   ghost k = 0
+//@   at `errcode.GetErrorKind(errs)` requires arg0 == errs
+//@   at `errcode.GetErrorKind(errs)` ghost k = callres0
+//@   ensures k == errcode.KindProtocol ==> res0 == 400
+//@   ensures k != errcode.KindProtocol ==> res0 == 200
+//@   nopanic
+//@   pure
+//@ trusted strings.TrimSpace(s) (r)
+//@   nopanic
+//@   pure
+//@ trusted strings.EqualFold(s, t) (b)
+//@   nopanic
+//@   pure
+//@ trusted strings.Split(s, sep) (parts)
+//@   ensures len(parts) >= 1
+//@   nopanic
+//@   pure
+//@ trusted mime.ParseMediaType(v) (mediatype, params, err)
+//@   nopanic
+//@   pure
+// Without an explicitly configured Content-Type the negotiated type is one of the two GraphQL media types, and
+// an empty Accept header means application/json.
+//@ func determineResponseContentType [C09]
+//@   requires r != nil
+//@   ghost explicit = false
+//@   ghost acc = ""
+//@   at `strings.EqualFold(k, "Content-Type")` ghost explicit = explicit || callres0
+//@   at `r.Header.Get("Accept")` ghost acc = callres0
+//@   ensures !explicit ==> res0 == "application/json" || res0 == "application/graphql-response+json"
+//@   ensures !explicit && acc == "" ==> res0 == "application/json"
+//@   pure
+//@ func mergeHeaders [C09]
+//@   ensures res0 != nil
+//@   modifies maps
+//@ trusted (net/http.Header).Add(key, value)
+//@   modifies maps
+//@ func writeHeaders [C09]
+//@   requires w != nil
+//@   ensures calls(WriteHeader) == 0
+//@   modifies maps
